@@ -33,6 +33,7 @@ type ConnHistory struct {
 
 	C2S, S2C HalfRecord
 	Client   *ClientHistory
+	Stub     *StubHistory
 
 	SrvCloseSeq   int // backend events recorded before the server closed its endpoint, -1 = it never did
 	SrvLateWrites int // server Write calls after it had closed its endpoint
@@ -248,13 +249,16 @@ func (d *driver) run(offer func(net.Conn) bool) {
 		}
 		switch {
 		case st.Kind == kStartTLS:
-			// wait for the 220, whatever discipline is in use
-			if st.Wait > 0 {
-				d.await(i, st.Wait)
-			} else {
-				d.awaitQuiet(2 * time.Second)
+			// wait for the 220, whatever discipline is in use - unless plaintext is
+			// injected behind the command first
+			if !isInjectNext(d.sc.Steps, i) {
+				if st.Wait > 0 {
+					d.await(i, st.Wait)
+				} else {
+					d.awaitQuiet(2 * time.Second)
+				}
+				h.StepCode[i] = d.lastCode
 			}
-			h.StepCode[i] = d.lastCode
 		case st.Wait > 0:
 			d.await(i, st.Wait)
 			h.StepCode[i] = d.lastCode
@@ -291,8 +295,8 @@ func (d *driver) run(offer func(net.Conn) bool) {
 		if st.Kind == kStartTLS && d.lastCode == 220 && !d.ended && !isInjectNext(d.sc.Steps, i) {
 			d.handshake()
 		}
-		if st.Kind == kInject && !d.ended {
-			// injected plaintext has been written; now start the handshake
+		if st.Kind == kInject && !d.ended && d.lastCode == 220 {
+			// injected plaintext has been written and the 220 has arrived: start the handshake
 			d.handshake()
 		}
 	}
